@@ -776,8 +776,27 @@ impl<'a> Hist<'a> {
             if a != b {
                 let only_shadow: Vec<_> = a.difference(&b).take(4).collect();
                 let only_server: Vec<_> = b.difference(&a).take(4).collect();
+                // three different things, three signatures: an object the
+                // server holds is listed with other content / an object the
+                // server holds is not listed / entries for objects the
+                // server does not hold (any more)
+                let server_uris: BTreeSet<&String> =
+                    b.iter().map(|x| &x.0).collect();
+                let shadow_uris: BTreeSet<&String> =
+                    a.iter().map(|x| &x.0).collect();
+                let content_differs = a.difference(&b)
+                    .any(|x| server_uris.contains(&x.0));
+                let unlisted = b.difference(&a)
+                    .any(|x| !shadow_uris.contains(&x.0));
+                let kind = if content_differs {
+                    "repo-published-list-content-differs-from-server"
+                } else if unlisted {
+                    "repo-published-list-misses-server-objects"
+                } else {
+                    "repo-published-list-differs-from-server"
+                };
                 out.push((
-                    format!("repo-published-list-differs-from-server:{ctx}"),
+                    format!("{kind}:{ctx}"),
                     format!("{ca} ({at}): only in status {only_shadow:?}, \
                         only at server {only_server:?}"),
                 ));
